@@ -87,6 +87,13 @@ CHECKS = {
                 text="for every object used in baked programs over the C08 templates, per well for the plate, over "
                      "all/s1/s2: remaining before/after equals the ledger's content at the start/end, in/out equal the "
                      "ledger's gains/losses, flows >= 0 and in - out = change in remaining, output rounding modelled."),
+    'C16': dict(engine=E1, design='§4 C16',
+                technique="abstract-state fixpoint exploration of the real Recipe object (native BFS), then symbolic execution of every (representative history, call) pair with symbolic step quantities; z3 decides bake feasibility forks; verdicts vs a reference automaton",
+                text="every call of a 29-call alphabet from every reachable abstract lifecycle state (quick: depth 4, "
+                     "thorough: fixpoint) gets the reference automaton's verdict and successor state; after a successful "
+                     "bake every call raises RuntimeError and steps, results and tracking answers do not change. The "
+                     "solver's part is the feasibility of bake over symbolic quantities; the universal quantification over "
+                     "call sequences is by exhaustion of abstract states, stated as such."),
     'C02': dict(engine=E1, design='§4 C02',
                 technique="symbolic execution of Container.transfer/Plate.transfer with z3 (QF_NRA/LRA), differential vs independent unit table",
                 text="size of the aliquot (in the unit of q), uniformity (cross-multiplied ratios) and destination gain "
